@@ -22,6 +22,41 @@ def layers(ctx):
 INTS = ['explicit', 'rk2', 'rk3ssp', 'rk4', 'lsrk25bb', 'implicit', 'cranknicolson', 'gear']
 
 
+IMPL = ('implicit', 'cranknicolson', 'gear')
+
+
+def _solve_shift(res, cfg, mod, msh, disc, f, fs, k, name, directives):
+    """whole solve (4 iterations) on data shifted by k cells == shifted solve; returns 'ok' | 'fail' | 'skipped'"""
+    n = cfg['n']
+    cfl = 0.3 if name not in IMPL else 1.0
+    kw = dict(directives=dict(directives)) if directives else {}
+    tag = 'solve/%s%s' % (name, '+dtlocal' if directives else '')
+    def run():
+        a = getattr(impl.integ, name)(msh, disc).solve(f, cfl, stop={'maxit': 4}, **kw)[-1]
+        b_ = getattr(impl.integ, name)(msh, disc).solve(fs, cfl, stop={'maxit': 4}, **kw)[-1]
+        return a, b_
+    ok, out = impl.guarded(run)
+    res.case(('solve', name, cfg['model'], n, bool(directives)))
+    rp = dict(cfg=cfg, shift=k, integrator=name, directives=directives)
+    if not ok and 'Singular matrix' in str(out) and name in IMPL:
+        # rough data with the centered flux: the trajectory leaves the admissible set and the linearised system degenerates
+        res.count('skipped-singular-implicit-system'); return 'skipped'
+    if not ok:
+        res.fail('%s:raised' % tag, out, rp); return 'fail'
+    a, b_ = out
+    if a.isnan() or b_.isnan():
+        # a trajectory on its way out of the admissible set (centered flux, rough data): whether a NaN appears at this or
+        # the next iteration is decided by round-off, which the shift permutes
+        res.count('skipped-nan'); return 'skipped'
+    for q in range(mod.neq):
+        sc = float(np.max(np.abs(a.data[q]))) + 1e-300
+        tol = 1e-11 if name not in IMPL else 1e-7
+        if abs(a.time - b_.time) > tol * (abs(a.time) + 1) or not np.all(np.abs(np.roll(a.data[q], -k) - b_.data[q]) <= tol * sc):
+            res.fail('%s:shift' % tag, "solve(shifted data) != shifted solve (eq %d, max diff %r)" % (q, float(np.max(np.abs(np.roll(a.data[q], -k) - b_.data[q])))), rp)
+            return 'fail'
+    return 'ok'
+
+
 def oracle(ctx, seeds=None):
     res = OracleResult()
     rng = ctx.rng
@@ -57,31 +92,24 @@ def oracle(ctx, seeds=None):
             name = INTS[(i // 6) % len(INTS)]
             if cfg['model'] in ('sw', 'euler') and cfg['scheme'][0] not in ('extrapol1', 'muscl'):
                 continue
-            if 'units' in cfg and name in ('implicit', 'cranknicolson', 'gear'):
+            if 'units' in cfg and name in IMPL:
                 continue   # O5: the finite-difference perturbation falls back to an absolute 1e-8 for zero-mean components (units of order 1 only)
-            cfl = 0.3 if name not in ('implicit', 'cranknicolson', 'gear') else 1.0
-            def run():
-                a = getattr(impl.integ, name)(msh, disc).solve(f, cfl, stop={'maxit': 4})[-1]
-                b_ = getattr(impl.integ, name)(msh, disc).solve(fs, cfl, stop={'maxit': 4})[-1]
-                return a, b_
-            ok, out = impl.guarded(run)
-            res.case(('solve', name, cfg['model'], n))
-            if not ok and 'Singular matrix' in str(out) and name in ('implicit', 'cranknicolson', 'gear'):
-                # rough data with the centered flux: the trajectory leaves the admissible set and the linearised system degenerates
-                res.count('skipped-singular-implicit-system'); continue
+            _solve_shift(res, cfg, mod, msh, disc, f, fs, k, name, {'dtlocal': True} if (i // 6) % 3 == 2 else None)
+    # ---- every implicit integrator with a per-cell time step on systems (the diagonal 1/dt[cell] of the flattened system) and scalars
+    for j, (name, model) in enumerate([(a, b) for a in IMPL for b in ('euler', 'sw', 'burgers')]):
+        n = [5, 4, 7][j % 3]
+        for attempt in range(4):
+            cfg = cfg1d.rand_config(rng, model=model, per=True, n=n, meshkind='uni', smooth=True, units=False,
+                                    scheme=[('extrapol1',), ('muscl', 'minmod')][(j + attempt) % 2],
+                                    flux={'euler': 'hlle', 'sw': 'rusanov', 'burgers': None}[model])
+            k = 1 + (j + attempt) % (n - 1)
+            ok, b = impl.guarded(cfg1d.build, cfg)
             if not ok:
-                res.fail('solve/%s:raised' % name, out, dict(cfg=cfg, shift=k, integrator=name)); continue
-            a, b_ = out
-            if a.isnan() or b_.isnan():
-                # a trajectory on its way out of the admissible set (centered flux, rough data): whether a NaN appears at this or
-                # the next iteration is decided by round-off, which the shift permutes
-                res.count('skipped-nan'); continue
-            for q in range(mod.neq):
-                sc = float(np.max(np.abs(a.data[q]))) + 1e-300
-                tol = 1e-11 if name not in ('implicit', 'cranknicolson', 'gear') else 1e-7
-                if abs(a.time - b_.time) > tol * (abs(a.time) + 1) or not np.all(np.abs(np.roll(a.data[q], -k) - b_.data[q]) <= tol * sc):
-                    res.fail('solve/%s:shift' % name, "solve(shifted data) != shifted solve (eq %d, max diff %r)" % (q, float(np.max(np.abs(np.roll(a.data[q], -k) - b_.data[q])))),
-                             dict(cfg=cfg, shift=k, integrator=name)); break
+                res.fail('build:raised', b, dict(cfg=cfg)); break
+            mod, msh, disc, f = b
+            fs = impl.field.fdata(mod, msh, [np.roll(d, -k) for d in f.data])
+            if _solve_shift(res, cfg, mod, msh, disc, f, fs, k, name, {'dtlocal': True}) != 'skipped':
+                break
     # ---- 2D: shifts along x and y
     for i in range(ctx.n(60, 1200)):
         nx, ny = int(rng.choice([1, 2, 3, 4, 5])), int(rng.choice([1, 2, 3, 4, 5]))
